@@ -201,39 +201,88 @@ def run(check, an: Analysis):
     names = [ast.unparse(h.type) if h.type is not None else '<bare>' for _t, h in handlers]
     check.instance('H', 'loop:only-StopIteration-handled', names == ['StopIteration'],
                    loop_mod.relpath, 'handlers in the kernel: %s' % names)
-    runc = an.callee(LOOP, '_run_coroutine')
+    run_events_h = an.callee(LOOP, '_run_events')
     outcomes = {}
-    for path in an.paths(runc):
-        caught = [e for e in path.events if e.kind == 'handler']
+    forms, guard_ok, n_resume = set(), True, 0
+    for path in an.paths(run_events_h):
+        resumes = rules.activation_resumes(path)
+        for index, kind, subject in resumes:
+            n_resume += 1
+            node = path.events[index].node
+            args = [rules.value_text(path, index, a) for a in node.args]
+            forms.add((kind, tuple(a.replace(subject, 'A') for a in args)))
+            unsignalled = rules.path_atoms(path, 0, index).get(
+                ('isnone', '%s.signal' % subject))
+            guard_ok &= unsignalled is (kind == 'send')
+        caught = [(i, e) for i, e in enumerate(path.events) if e.kind == 'handler'
+                  and 'StopIteration' in e['exc'] and resumes and i > resumes[-1][0]]
         if not caught:
             continue
-        has_value = [e for e in path.events if e.kind == 'test'
-                     and 'args' in ast.unparse(e.node)]
+        at, handler = caught[0]
+        name = handler.node.name
+        has_value = rules.path_atoms(path, at).get(('truth', '%s.args' % name)) \
+            if name else None
         leak = path.kind == 'raise' and path.outcome[1].cls.endswith('ActivityLeak')
-        if has_value:
-            outcomes[bool(has_value[0]['value'])] = leak
+        if has_value is not None:
+            outcomes[has_value] = outcomes.get(has_value, leak) and leak \
+                if has_value else outcomes.get(has_value, False) or leak
     check.instance('H', '_run_coroutine:leak-iff-value', outcomes == {True: True,
                                                                      False: False},
-                   where_fn(runc.fn), 'a finished activity raises ActivityLeak exactly when '
-                   'it returned a value: %s' % outcomes)
+                   where_fn(run_events_h.fn), 'a finished activity raises ActivityLeak '
+                   'exactly when it returned a value: %s' % outcomes)
     # the coroutine is driven by send/throw and nothing else
-    calls = sorted({n_.func.attr for n_ in ast.walk(runc.fn.node)
-                    if isinstance(n_, ast.Call) and isinstance(n_.func, ast.Attribute)
-                    and ast.unparse(n_.func.value) == 'target'})
-    check.instance('H', '_run_coroutine:send-or-throw', calls == ['send', 'throw'],
-                   where_fn(runc.fn), 'activities are resumed by send(None) / throw(signal)')
+    check.instance('H', '_run_coroutine:send-or-throw', forms == {
+        ('send', ('None',)), ('throw', ('A.signal',))} and guard_ok and n_resume > 0,
+        where_fn(run_events_h.fn), 'activities are resumed by send(None) without a '
+        'signal, throw(signal) with one (%d resumptions on paths): %s' % (
+            n_resume, sorted(forms)))
     # ---- O ------------------------------------------------------------------
-    init = an.method(LOOP, '__init__')
-    loops = [n_ for n_ in ast.walk(init.node) if isinstance(n_, ast.For)]
-    vararg = init.node.args.vararg.arg if init.node.args.vararg else None
-    ok = len(loops) == 1 and ast.unparse(loops[0].iter) == vararg and \
-        len(loops[0].body) == 1 and ast.unparse(loops[0].body[0]) == \
-        'self._activations.push(self.time, Activation(%s))' % ast.unparse(loops[0].target)
-    start_ok = any(isinstance(n_, ast.Assign) and ast.unparse(n_.targets[0]) == 'self.time'
-                   and ast.unparse(n_.value) == 'start' for n_ in init.node.body)
-    check.instance('O', 'Loop.__init__:roots-in-order', ok and start_ok, where_fn(init),
-                   'for coroutine in coroutines: push(self.time, Activation(coroutine)) '
-                   'with time = start')
+    init = an.callee(LOOP, '__init__')
+    vararg = init.fn.node.args.vararg.arg if init.fn.node.args.vararg else None
+    ok, n_push, n_paths = True, 0, 0
+    for path in an.paths(init):
+        if not path.normal:
+            continue
+        n_paths += 1
+        end = len(path.events)
+        # what ends up as the wait queue and as the clock of the new loop
+        final = {}
+        for index, event in enumerate(path.events):
+            if event.kind == 'store' and event['path'] in ('self._activations', 'self.time') \
+                    and event['value'] is not None:
+                final[event['path']] = (index, event['value'])
+        ok &= 'self.time' in final and rules.value_text(
+            path, final['self.time'][0], final['self.time'][1]) == 'start'
+        queue = final.get('self._activations')
+        made = queue is not None and rules.value_text(path, queue[0], queue[1]) \
+            == 'WaitQueue()'
+        ok &= bool(made)
+        queue_names = {'self._activations'}
+        if queue is not None and isinstance(queue[1], ast.Name):
+            queue_names.add(queue[1].id)
+        for it in rules.iterations(path):
+            ok &= it.source == vararg
+            pushes = []
+            for pos, event in it.events():
+                node = event.node
+                if event.kind in ('call', 'enter') and isinstance(node, ast.Call):
+                    func = rules.value_expr(path, pos, node.func, keep=tuple(queue_names))
+                    if isinstance(func, ast.Attribute) and func.attr == 'push' and \
+                            ast.unparse(func.value) in queue_names:
+                        pushes.append((pos, node))
+            n_push += len(pushes)
+            ok &= len(pushes) == 1
+            for pos, node in pushes:
+                args = [rules.value_text(path, pos, a) for a in node.args]
+                key_now = args[:1] == ['self.time'] and 'self.time' in final and \
+                    final['self.time'][0] < pos
+                ok &= len(args) == 2 and (args[0] == 'start' or key_now) and \
+                    args[1] == 'Activation(%s)' % it.var
+        ok &= all(rules.loop_completed(path, it.node) for it in rules.iterations(path))
+    check.instance('O', 'Loop.__init__:roots-in-order', ok and n_push > 0 and n_paths > 0,
+                   where_fn(init.fn), 'for coroutine in coroutines: push(start, '
+                   'Activation(coroutine)) into the loop\'s own new wait queue, with '
+                   'time = start (%d pushes on %d paths)' % (n_push, n_paths))
     check.stats.update(an.stats())
 
 
